@@ -1,0 +1,13 @@
+//go:build verif
+
+// Contracts for the deductive verifier in /verif (icsvc). Comment-only: this file contributes no code.
+
+package staking
+
+// ---------------------------------------------------------------- C15: the wrapped staking module never hands validator updates to consensus
+
+//@ func AppModule.EndBlock
+//@ ensures [no-updates-from-staking] len(result0) == 0
+
+//@ func AppModule.InitGenesis
+//@ ensures [no-updates-from-staking] len(result) == 0
